@@ -44,6 +44,12 @@ func genC17(seed int64, tier string) *Scenario {
 				}
 			case 2: // healthy late but in time
 				ts.Phases = healthyAfter(rng, time.Duration(rng.Intn(int(deployT/time.Millisecond)*2/3+1))*time.Millisecond, sc.HC.Timeout)
+			case 4: // one never healthy, another healthy at first and failing again before the deadline
+				if j == 0 {
+					ts.Phases = []Phase{neverHealthy(rng, sc.HC.Timeout)}
+				} else {
+					ts.Phases = []Phase{{Until: time.Duration(50+rng.Intn(int(deployT/time.Millisecond)/2)) * time.Millisecond, Kind: "ok"}, {Kind: "status", Status: 500}}
+				}
 			case 3: // healthy too late
 				if j == 0 {
 					ts.Phases = healthyAfter(rng, deployT+time.Duration(50+rng.Intn(500))*time.Millisecond, sc.HC.Timeout)
@@ -61,6 +67,15 @@ func genC17(seed int64, tier string) *Scenario {
 	n := 2 + rng.Intn(5)
 	gen := 0
 	paused := false
+	focus := rng.Intn(6) == 0
+	if focus {
+		// a pause or stop that has to drain the active and the rollout targets at
+		// once, each with requests that outlast the drain timeout
+		n = 0
+		op.Ops = append(op.Ops, Op{Kind: "rollout_deploy", Service: "web", Targets: newTargets("r0-", 1+rng.Intn(2), 0), DeployTimeout: deployT, DrainTimeout: drainT, Delay: 20 * time.Millisecond},
+			Op{Kind: "rollout_set", Service: "web", Percent: 100, Delay: 10 * time.Millisecond},
+			Op{Kind: pick(rng, "pause", "stop"), Service: "web", DrainTimeout: drainT, PauseTimeout: time.Duration(300+rng.Intn(2000)) * time.Millisecond, Delay: time.Duration(300+rng.Intn(400)) * time.Millisecond})
+	}
 	for i := 0; i < n; i++ {
 		gen++
 		d := time.Duration(100+rng.Intn(900)) * time.Millisecond
@@ -68,7 +83,7 @@ func genC17(seed int64, tier string) *Scenario {
 		case 0, 1: // redeploy, healthy (possibly late)
 			op.Ops = append(op.Ops, Op{Kind: "deploy", Service: "web", Targets: newTargets(fmt.Sprintf("g%d-", gen), 1+rng.Intn(2), pick(rng, 0, 2)), DeployTimeout: deployT, DrainTimeout: drainT, Delay: d})
 		case 2: // redeploy that never becomes healthy / too late
-			op.Ops = append(op.Ops, Op{Kind: "deploy", Service: "web", Targets: newTargets(fmt.Sprintf("g%d-", gen), 1+rng.Intn(2), pick(rng, 1, 3)), DeployTimeout: deployT, DrainTimeout: drainT, Delay: d})
+			op.Ops = append(op.Ops, Op{Kind: "deploy", Service: "web", Targets: newTargets(fmt.Sprintf("g%d-", gen), 1+rng.Intn(2), pick(rng, 1, 3, 4)), DeployTimeout: deployT, DrainTimeout: drainT, Delay: d})
 		case 3: // host conflict, detected after the new target became healthy
 			op.Ops = append(op.Ops, Op{Kind: "deploy", Service: "web", Hosts: []string{"taken.test"}, Targets: newTargets(fmt.Sprintf("g%d-", gen), 1, pick(rng, 0, 2)), DeployTimeout: deployT, DrainTimeout: drainT, Delay: d})
 		case 4: // rollout deploy
@@ -100,6 +115,9 @@ func genC17(seed int64, tier string) *Scenario {
 	op.Ops = append(op.Ops, Op{Kind: "sleep", Delay: 4*interval + sc.HC.Timeout})
 	sc.Actors = append(sc.Actors, op)
 	nc := 1 + rng.Intn(4)
+	if focus && nc < 2 {
+		nc = 2
+	}
 	for c := 0; c < nc; c++ {
 		a := ActorSpec{Name: fmt.Sprintf("client%d", c)}
 		nr := 2 + rng.Intn(6)
@@ -110,6 +128,16 @@ func genC17(seed int64, tier string) *Scenario {
 			}
 			if rng.Intn(2) == 0 {
 				o.Cookie = "kamal-rollout=u" + fmt.Sprint(rng.Intn(4))
+			}
+			if focus && i == 0 {
+				// in flight when the drain begins: with and without the rollout cookie
+				o = Op{Kind: "request", Path: "/x", Delay: time.Duration(80+rng.Intn(200)) * time.Millisecond}
+				if c%2 == 0 {
+					o.Cookie = "kamal-rollout=u" + fmt.Sprint(rng.Intn(4))
+				}
+				o.Sim = pick(rng, "mode=hang", simDirective(drainT+time.Duration(300+rng.Intn(400))*time.Millisecond, 0, ""))
+				a.Ops = append(a.Ops, o)
+				continue
 			}
 			if rng.Intn(4) == 0 {
 				// descheduled somewhere on the request path until a drain / deploy step has happened
@@ -157,6 +185,18 @@ func genC17(seed int64, tier string) *Scenario {
 				o.Delay += 100 * time.Millisecond
 			}
 			b.Ops = append(b.Ops, o)
+		}
+		if rng.Intn(2) == 0 {
+			// both operators deploy a different new service onto the same free
+			// host at about the same time: one of the two is rejected, possibly
+			// only after its targets became healthy, and must stop probing them
+			a := &sc.Actors[0]
+			last := a.Ops[len(a.Ops)-1]
+			mine := Op{Kind: "deploy", Service: "x1", Hosts: []string{"race.test"}, Targets: newTargets("x1-", 1, pick(rng, 0, 2)), DeployTimeout: deployT, DrainTimeout: drainT, Delay: time.Duration(rng.Intn(300)) * time.Millisecond}
+			a.Ops = append(append(a.Ops[:len(a.Ops)-1:len(a.Ops)-1], mine), last)
+			theirs := Op{Kind: "deploy", Service: "x2", Hosts: []string{"race.test"}, Targets: newTargets("x2-", 1, pick(rng, 0, 2)), DeployTimeout: deployT, DrainTimeout: drainT}
+			alignOp(rng, &theirs, []string{"op.deploy", "deploy.found", "deploy.probing", "deploy.healthy", "deploy.beforeUpdate", "deploy.beforeInstall"}, 2*n)
+			b.Ops = append(b.Ops, theirs)
 		}
 		if rng.Intn(3) == 0 {
 			// the second operator only removes, each time while a deploy of the
